@@ -13,6 +13,7 @@ func mergeCollectionExcess(in <-chan any) <-chan any {
 	out := make(chan any)
 	go func() {
 		defer close(out)
+		defer verifAt("lossy.exit", out)
 
 		messages := make(map[string]CollectionChange)
 		var queue list.List // of string, Front is which id to send next
@@ -46,16 +47,19 @@ func mergeCollectionExcess(in <-chan any) <-chan any {
 						}
 						if !send {
 							delete(messages, id)
+							verifAt("lossy.in", out, in)
 							continue
 						}
 					}
 
 					messages[id] = newMessage
 					queue.PushBack(id)
+					verifAt("lossy.in", out, in)
 				case out <- event():
 					front := queue.Front()
 					queue.Remove(front)
 					delete(messages, front.Value.(string))
+					verifAt("lossy.out", out, in)
 				}
 			} else {
 				newAny, ok := <-in
@@ -65,6 +69,7 @@ func mergeCollectionExcess(in <-chan any) <-chan any {
 				newMessage := *(newAny.(*CollectionChange))
 				messages[newMessage.Id] = newMessage
 				queue.PushBack(newMessage.Id)
+				verifAt("lossy.in", out, in)
 			}
 		}
 
